@@ -6,6 +6,7 @@ package c13
 
 import (
 	"fmt"
+	"net"
 	"os"
 	"runtime"
 	"sync"
@@ -66,8 +67,9 @@ func TestMain(m *testing.M) {
 
 func flows() []aggh.FlowDef {
 	return []aggh.FlowDef{
-		{Src: "10.0.0.1", Dst: "10.0.1.2", SPort: 1000, DPort: 80, Proto: 6, Kind: aggh.KindInterNode},
-		{V6: true, Src: "2001:db8::1", Dst: "2001:db8::2", SPort: 1001, DPort: 443, Proto: 6, Kind: aggh.KindInterNode},
+		// only the destination node knows the cluster IP: it is filled in when the two nodes are correlated
+		{Src: "10.0.0.1", Dst: "10.0.1.2", SPort: 1000, DPort: 80, Proto: 6, Kind: aggh.KindInterNode, CorrD: aggh.Corr{Cluster: "10.96.0.10"}},
+		{V6: true, Src: "2001:db8::1", Dst: "2001:db8::2", SPort: 1001, DPort: 443, Proto: 6, Kind: aggh.KindInterNode, CorrD: aggh.Corr{Cluster: "fd00::10"}},
 		{Src: "10.0.0.5", Dst: "10.0.1.6", SPort: 1002, DPort: 53, Proto: 17, Kind: aggh.KindIntraNode},
 		{Src: "10.0.0.7", Dst: "192.0.2.8", SPort: 1003, DPort: 8080, Proto: 6, Kind: aggh.KindToExternal},
 	}
@@ -287,6 +289,22 @@ func runCase(c Case) (*ev.Failure, bool) {
 		wg.Add(1)
 		go func(ops []Op) {
 			defer wg.Done()
+			// a query result is a value: what GetRecords returned is kept and read again at the goroutine's
+			// next query and at its end; it must not have changed (nor be written to behind our back)
+			type kept struct {
+				flow int
+				ip   net.IP
+				copy []byte
+			}
+			var keep []kept
+			recheck := func() {
+				for _, k := range keep {
+					if string(k.ip) != string(k.copy) {
+						setFail(ev.Failf("a GetRecords result for flow %d changed after the call returned: destinationClusterIP was %v, now reads %v (a completed query must not observe later updates)", k.flow, net.IP(k.copy), k.ip))
+					}
+				}
+			}
+			defer recheck()
 			for _, o := range ops {
 				sleepUs(o.PauseUs)
 				switch o.Kind {
@@ -319,8 +337,17 @@ func runCase(c Case) (*ev.Failure, bool) {
 					}
 				case "getrecords":
 					key := fl[o.Flow%len(fl)].Key()
-					if rs := ap.GetRecords(&key); len(rs) > 1 {
+					recheck()
+					rs := ap.GetRecords(&key)
+					if len(rs) > 1 {
 						setFail(ev.Failf("GetRecords returned %d records for one five-tuple", len(rs)))
+					}
+					if len(rs) == 1 {
+						for _, n := range []string{"destinationClusterIPv4", "destinationClusterIPv6"} {
+							if ip, ok := rs[0][n].(net.IP); ok && len(keep) < 64 {
+								keep = append(keep, kept{flow: o.Flow % len(fl), ip: ip, copy: append([]byte(nil), ip...)})
+							}
+						}
 					}
 				case "expiry":
 					if d := ap.GetExpiryFromExpirePriorityQueue(); d < 0 {
